@@ -1,6 +1,8 @@
 pub mod c01;
 pub mod c05race;
+pub mod c09;
 pub mod c10;
+pub mod c19;
 pub mod common;
 pub mod hist;
 pub mod histchecks;
@@ -14,6 +16,8 @@ pub fn by_id(id: &str) -> Option<Box<dyn Check>> {
         "C02" => Some(Box::new(histchecks::HistCheck { prop: "C02" })),
         "C03" => Some(Box::new(histchecks::HistCheck { prop: "C03" })),
         "C05" => Some(Box::new(histchecks::C05)),
+        "C09" => Some(Box::new(c09::C09)),
+        "C19" => Some(Box::new(c19::C19)),
         "C10" => Some(Box::new(c10::C10)),
         "C08" => Some(Box::new(histchecks::HistCheck { prop: "C08" })),
         _ => None,
